@@ -422,7 +422,7 @@ class Ctx:
                 self.notes.append('known finding %s was not reproduced in this run' % f['id'])
         seen_tags = set()
         for bad in unlisted:
-            if bad['tag'] in seen_tags:
+            if bad['tag'] in seen_tags or len(seen_tags) >= 8:
                 continue
             seen_tags.add(bad['tag'])
             path = write_replay({'property': prop, 'kind': 'violation', 'seed': self.seed,
